@@ -169,3 +169,370 @@ Proof.
       exists ky'. rewrite Hr. subst e'. rewrite with_props_twice. reflexivity.
     + intros [= <- <-]. exists ky. destruct e as [[]|[]|[]|[]]; reflexivity.
 Qed.
+
+(* ------------------------------------------------------------------ elements *)
+Lemma closed_drop pts o : closed_poly pts = Some o -> drop_closing pts = Some o.
+Proof.
+  unfold closed_poly, drop_closing. destruct pts as [|p0 pts]; [discriminate|].
+  destruct ((fst p0 =? fst (last (p0 :: pts) p0))%Z && (snd p0 =? snd (last (p0 :: pts) p0))%Z); [auto|discriminate].
+Qed.
+
+Ltac t1 H r l Ht Hd :=
+  let E := fresh "E" in
+  destruct (take1_some _ _ _ _ _ _ H) as (E & Ht & Hd); subst.
+
+Lemma run_spec_boundary f nm un dn c b wd ky ps box l e rest :
+  spec_boundary box l = Some (e, rest) ->
+  exists wd' ky' ps',
+  run f (Build_rstate nm un dn (Some (c, b)) (Some (EPoly new_poly)) wd ky ps) l =
+  run f (Build_rstate nm un dn (Some (commit f c e, b)) None wd' ky' ps') rest.
+Proof.
+  unfold spec_boundary. rewrite (run_skip_flags f _ l). generalize (skip_flags l). clear l. intros l.
+  destruct (take1 13 2 2 l) as [[rl l1]|] eqn:H1; [|discriminate].
+  destruct (take1 (if box then 46 else 14) 2 2 l1) as [[rt l2]|] eqn:H2; [|discriminate].
+  destruct (take_xy l2) as [[pts l3]|] eqn:H3; [|discriminate].
+  destruct (take_props [] l3) as [prs l4] eqn:H4.
+  destruct (take_endel l4) as [l5|] eqn:H5; [|discriminate].
+  destruct (closed_poly pts) as [opn|] eqn:H6; [|discriminate].
+  intros [= <- <-].
+  destruct (take1_some _ _ _ _ _ _ H1) as (-> & Ht1 & Hd1).
+  destruct (take1_some _ _ _ _ _ _ H2) as (-> & Ht2 & Hd2).
+  destruct (take_endel_some _ _ H5) as (re & -> & Hte).
+  unfold new_poly. step_rec Ht1. rewrite Hd1. cbn [swapped].
+  assert (Hk : kind_of (rtype rt) = KDatatype) by (rewrite Ht2; destruct box; reflexivity).
+  cbn [run]. unfold step_gds at 1. rewrite Hk.
+  cbn [s_open]. unfold with_open. cbn [s_name s_units s_done s_cur s_open s_width s_key s_path_started p_layer p_type p_pts p_props].
+  rewrite Hd2. cbn [swapped].
+  rewrite (run_xy_poly_spec f nm un dn (Some (c, b)) wd ky ps _ _ [] l2 pts l3 H3).
+  destruct (run_take_props f nm un dn (Some (c, b)) wd ps l3
+              (EPoly (Build_gpoly (d16 (swap2 (payload rl)) 0) (d16 (swap2 (payload rt)) 0) pts [])) ky prs (re :: l5) H4) as [ky' Hp].
+  rewrite Hp. cbn [with_props p_layer p_type p_pts].
+  step_rec Hte. rewrite (closed_drop _ _ H6). cbn [s_cur].
+  do 3 eexists. reflexivity.
+Qed.
+
+(* optional records of a PATH *)
+Lemma run_opt_pathtype f nm un dn cu wd ky ps la ty en hw sw ex pts pr l o l' :
+  opt1 33 2 2 l = (o, l') ->
+  run f (Build_rstate nm un dn cu (Some (EPath (Build_gpath la ty en hw sw ex pts pr))) wd ky ps) l =
+  run f (Build_rstate nm un dn cu (Some (EPath (Build_gpath la ty
+          (match o with Some r => match f16 r with 0%Z => EFlush | 1%Z => ERound | 2%Z => EHalf | _ => EExt end | None => en end)
+          hw sw ex pts pr))) wd ky ps) l'.
+Proof.
+  intros H. destruct (opt1_cases _ _ _ _ _ _ H) as [[-> ->]|(r & -> & -> & Ht & Hd)]; [reflexivity|].
+  step_rec Ht. rewrite Hd. cbn [swapped]. reflexivity.
+Qed.
+
+Lemma run_opt_width_path f nm un dn cu wd ky ps la ty en hw sw ex pts pr l o l' :
+  opt1 15 3 4 l = (o, l') ->
+  run f (Build_rstate nm un dn cu (Some (EPath (Build_gpath la ty en hw sw ex pts pr))) wd ky ps) l =
+  run f (Build_rstate nm un dn cu (Some (EPath (Build_gpath la ty en hw
+          (match o with Some r => (0 <=? f32 r)%Z | None => sw end) ex pts pr)))
+          (match o with Some r => Z.abs (f32 r) | None => wd end) ky ps) l'.
+Proof.
+  intros H. destruct (opt1_cases _ _ _ _ _ _ H) as [[-> ->]|(r & -> & -> & Ht & Hd)]; [reflexivity|].
+  step_rec Ht. rewrite Hd. cbn [swapped]. reflexivity.
+Qed.
+
+Lemma run_opt_bgnextn f nm un dn cu wd ky ps la ty en hw sw e0 e1 pts pr l o l' :
+  opt1 48 3 4 l = (o, l') ->
+  run f (Build_rstate nm un dn cu (Some (EPath (Build_gpath la ty en hw sw (e0, e1) pts pr))) wd ky ps) l =
+  run f (Build_rstate nm un dn cu (Some (EPath (Build_gpath la ty en hw sw
+          (match o with Some r => f32 r | None => e0 end, e1) pts pr))) wd ky ps) l'.
+Proof.
+  intros H. destruct (opt1_cases _ _ _ _ _ _ H) as [[-> ->]|(r & -> & -> & Ht & Hd)]; [reflexivity|].
+  step_rec Ht. rewrite Hd. cbn [swapped fst snd]. reflexivity.
+Qed.
+
+Lemma run_opt_endextn f nm un dn cu wd ky ps la ty en hw sw e0 e1 pts pr l o l' :
+  opt1 49 3 4 l = (o, l') ->
+  run f (Build_rstate nm un dn cu (Some (EPath (Build_gpath la ty en hw sw (e0, e1) pts pr))) wd ky ps) l =
+  run f (Build_rstate nm un dn cu (Some (EPath (Build_gpath la ty en hw sw
+          (e0, match o with Some r => f32 r | None => e1 end) pts pr))) wd ky ps) l'.
+Proof.
+  intros H. destruct (opt1_cases _ _ _ _ _ _ H) as [[-> ->]|(r & -> & -> & Ht & Hd)]; [reflexivity|].
+  step_rec Ht. rewrite Hd. cbn [swapped fst snd]. reflexivity.
+Qed.
+
+Lemma run_spec_path f nm un dn c b ky l e rest :
+  spec_path l = Some (e, rest) ->
+  exists wd' ky' ps',
+  run f (Build_rstate nm un dn (Some (c, b)) (Some (EPath new_path)) 0%Z ky false) l =
+  run f (Build_rstate nm un dn (Some (commit f c e, b)) None wd' ky' ps') rest.
+Proof.
+  unfold spec_path. rewrite (run_skip_flags f _ l). generalize (skip_flags l). clear l. intros l.
+  destruct (take1 13 2 2 l) as [[rl l1]|] eqn:H1; [|discriminate].
+  destruct (take1 14 2 2 l1) as [[rt l2]|] eqn:H2; [|discriminate].
+  destruct (opt1 33 2 2 l2) as [opt_ l3] eqn:H3.
+  destruct (opt1 15 3 4 l3) as [ow l4] eqn:H4.
+  destruct (opt1 48 3 4 l4) as [ob l5] eqn:H5.
+  destruct (opt1 49 3 4 l5) as [oe l6] eqn:H6.
+  destruct (take_xy l6) as [[pts l7]|] eqn:H7; [|discriminate].
+  destruct (take_props [] l7) as [prs l8] eqn:H8.
+  destruct (take_endel l8) as [l9|] eqn:H9; [|discriminate].
+  intros [= <- <-].
+  destruct (take1_some _ _ _ _ _ _ H1) as (-> & Ht1 & Hd1).
+  destruct (take1_some _ _ _ _ _ _ H2) as (-> & Ht2 & Hd2).
+  destruct (take_endel_some _ _ H9) as (re & -> & Hte).
+  unfold new_path. step_rec Ht1. rewrite Hd1. cbn [swapped].
+  step_rec Ht2. rewrite Hd2. cbn [swapped].
+  rewrite (run_opt_pathtype _ _ _ _ _ _ _ _ _ _ _ _ _ _ _ _ _ _ _ H3).
+  rewrite (run_opt_width_path _ _ _ _ _ _ _ _ _ _ _ _ _ _ _ _ _ _ _ H4).
+  rewrite (run_opt_bgnextn _ _ _ _ _ _ _ _ _ _ _ _ _ _ _ _ _ _ _ _ H5).
+  rewrite (run_opt_endextn _ _ _ _ _ _ _ _ _ _ _ _ _ _ _ _ _ _ _ _ H6).
+  rewrite (run_xy_path_spec _ _ _ _ _ _ _ _ _ _ _ _ _ _ _ _ _ H7).
+  match goal with |- context [Some (EPath ?h)] =>
+    destruct (run_take_props f nm un dn (Some (c, b))
+                (match ow with Some r => Z.abs (f32 r) | None => 0%Z end) true l7 (EPath h) ky prs (re :: l9) H8) as [ky' Hp]
+  end.
+  rewrite Hp. cbn [with_props h_layer h_type h_end h_width h_scale_width h_ext h_pts].
+  step_rec Hte. cbn [s_cur]. unfold f16.
+  destruct ow as [rw|]; do 3 eexists; reflexivity.
+Qed.
+
+(* [STRANS [MAG] [ANGLE]] on an open reference / label *)
+Lemma run_take_strans_ref f nm un dn cu wd ky ps rn ro rp pr l refl mag rot l' :
+  take_strans l = ((refl, mag, rot), l') ->
+  run f (Build_rstate nm un dn cu (Some (ERef (Build_gref rn ro false real_one 0 rp pr))) wd ky ps) l =
+  run f (Build_rstate nm un dn cu (Some (ERef (Build_gref rn ro refl mag rot rp pr))) wd ky ps) l'.
+Proof.
+  unfold take_strans. destruct (take1 26 1 2 l) as [[rs l1]|] eqn:H1.
+  - destruct (opt1 27 5 8 l1) as [om l2] eqn:H2. destruct (opt1 28 5 8 l2) as [oa l3] eqn:H3.
+    intros [= <- <- <- <-]. destruct (take1_some _ _ _ _ _ _ H1) as (-> & Ht & Hd).
+    step_rec Ht. rewrite Hd. cbn [swapped].
+    destruct (opt1_cases _ _ _ _ _ _ H2) as [[-> ->]|(rm & -> & -> & Htm & Hdm)];
+    destruct (opt1_cases _ _ _ _ _ _ H3) as [[-> ->]|(ra & -> & -> & Hta & Hda)].
+    + reflexivity.
+    + step_rec Hta. rewrite Hda. reflexivity.
+    + step_rec Htm. rewrite Hdm. reflexivity.
+    + step_rec Htm. rewrite Hdm. cbn [swapped]. step_rec Hta. rewrite Hda. reflexivity.
+  - intros [= <- <- <- <-]. reflexivity.
+Qed.
+
+Lemma run_take_strans_label f nm un dn cu wd ky ps la ty tx o an pr l refl mag rot l' :
+  take_strans l = ((refl, mag, rot), l') ->
+  run f (Build_rstate nm un dn cu (Some (ELabel (Build_glabel la ty tx o an false real_one 0 pr))) wd ky ps) l =
+  run f (Build_rstate nm un dn cu (Some (ELabel (Build_glabel la ty tx o an refl mag rot pr))) wd ky ps) l'.
+Proof.
+  unfold take_strans. destruct (take1 26 1 2 l) as [[rs l1]|] eqn:H1.
+  - destruct (opt1 27 5 8 l1) as [om l2] eqn:H2. destruct (opt1 28 5 8 l2) as [oa l3] eqn:H3.
+    intros [= <- <- <- <-]. destruct (take1_some _ _ _ _ _ _ H1) as (-> & Ht & Hd).
+    step_rec Ht. rewrite Hd. cbn [swapped].
+    destruct (opt1_cases _ _ _ _ _ _ H2) as [[-> ->]|(rm & -> & -> & Htm & Hdm)];
+    destruct (opt1_cases _ _ _ _ _ _ H3) as [[-> ->]|(ra & -> & -> & Hta & Hda)].
+    + reflexivity.
+    + step_rec Hta. rewrite Hda. reflexivity.
+    + step_rec Htm. rewrite Hdm. reflexivity.
+    + step_rec Htm. rewrite Hdm. cbn [swapped]. step_rec Hta. rewrite Hda. reflexivity.
+  - intros [= <- <- <- <-]. reflexivity.
+Qed.
+
+Lemma run_spec_ref f nm un dn c b wd ky ps array l e rest :
+  spec_ref array l = Some (e, rest) ->
+  exists wd' ky' ps',
+  run f (Build_rstate nm un dn (Some (c, b)) (Some (ERef new_ref)) wd ky ps) l =
+  run f (Build_rstate nm un dn (Some (commit f c e, b)) None wd' ky' ps') rest.
+Proof.
+  unfold spec_ref. rewrite (run_skip_flags f _ l). generalize (skip_flags l). clear l. intros l.
+  destruct (take_str 18 l) as [[rn l1]|] eqn:H1; [|discriminate].
+  destruct (take_strans l1) as [[[refl mag] rot] l2] eqn:H2.
+  destruct (take_str_some _ _ _ _ H1) as (rs & -> & Hts & ->).
+  unfold new_ref. step_rec Hts.
+  rewrite (run_take_strans_ref _ _ _ _ _ _ _ _ _ _ _ _ _ _ _ _ _ H2).
+  destruct array.
+  - destruct (take1 19 2 4 l2) as [[rc l3]|] eqn:H3; [|discriminate].
+    destruct (take1 16 3 24 l3) as [[rx l4]|] eqn:H4; [|discriminate].
+    destruct (take_props [] l4) as [prs l5] eqn:H5.
+    destruct (take_endel l5) as [l6|] eqn:H6; [|discriminate].
+    intros [= <- <-].
+    destruct (take1_some _ _ _ _ _ _ H3) as (-> & Ht3 & Hd3).
+    destruct (take1_some _ _ _ _ _ _ H4) as (-> & Ht4 & Hd4).
+    destruct (take_endel_some _ _ H6) as (re & -> & Hte).
+    step_rec Ht3. rewrite Hd3. cbn [swapped].
+    step_rec Ht4. rewrite Hd4. cbn [swapped g_cols g_rows].
+    match goal with |- context [Some (ERef ?r)] =>
+      destruct (run_take_props f nm un dn (Some (c, b)) wd ps l4 (ERef r) ky prs (re :: l6) H5) as [ky' Hp]
+    end.
+    rewrite Hp. cbn [with_props r_name r_origin r_refl r_mag r_rot r_rep].
+    step_rec Hte. cbn [s_cur].
+    destruct ((real_mantissa rot =? 0) && negb refl); cbn [negb]; do 3 eexists; reflexivity.
+  - destruct (take1 16 3 8 l2) as [[rx l4]|] eqn:H4; [|discriminate].
+    destruct (take_props [] l4) as [prs l5] eqn:H5.
+    destruct (take_endel l5) as [l6|] eqn:H6; [|discriminate].
+    intros [= <- <-].
+    destruct (take1_some _ _ _ _ _ _ H4) as (-> & Ht4 & Hd4).
+    destruct (take_endel_some _ _ H6) as (re & -> & Hte).
+    step_rec Ht4. rewrite Hd4. cbn [swapped].
+    match goal with |- context [Some (ERef ?r)] =>
+      destruct (run_take_props f nm un dn (Some (c, b)) wd ps l4 (ERef r) ky prs (re :: l6) H5) as [ky' Hp]
+    end.
+    rewrite Hp. cbn [with_props r_name r_origin r_refl r_mag r_rot r_rep].
+    step_rec Hte. cbn [s_cur]. do 3 eexists. reflexivity.
+Qed.
+
+Lemma run_spec_text f nm un dn c b wd ky ps l e rest :
+  spec_text l = Some (e, rest) ->
+  exists wd' ky' ps',
+  run f (Build_rstate nm un dn (Some (c, b)) (Some (ELabel new_label)) wd ky ps) l =
+  run f (Build_rstate nm un dn (Some (commit f c e, b)) None wd' ky' ps') rest.
+Proof.
+  unfold spec_text. rewrite (run_skip_flags f _ l). generalize (skip_flags l). clear l. intros l.
+  destruct (take1 13 2 2 l) as [[rl l1]|] eqn:H1; [|discriminate].
+  destruct (take1 22 2 2 l1) as [[rt l2]|] eqn:H2; [|discriminate].
+  destruct (opt1 23 1 2 l2) as [opr l3] eqn:H3.
+  destruct (opt1 33 2 2 l3) as [opt_ l4] eqn:H4.
+  destruct (opt1 15 3 4 l4) as [ow l5] eqn:H5.
+  destruct (take_strans l5) as [[[refl mag] rot] l6] eqn:H6.
+  destruct (take1 16 3 8 l6) as [[rx l7]|] eqn:H7; [|discriminate].
+  destruct (take_str 25 l7) as [[tx l8]|] eqn:H8; [|discriminate].
+  destruct (take_props [] l8) as [prs l9] eqn:H9.
+  destruct (take_endel l9) as [l10|] eqn:H10; [|discriminate].
+  intros [= <- <-].
+  destruct (take1_some _ _ _ _ _ _ H1) as (-> & Ht1 & Hd1).
+  destruct (take1_some _ _ _ _ _ _ H2) as (-> & Ht2 & Hd2).
+  destruct (take1_some _ _ _ _ _ _ H7) as (-> & Ht7 & Hd7).
+  destruct (take_str_some _ _ _ _ H8) as (rs & -> & Hts & ->).
+  destruct (take_endel_some _ _ H10) as (re & -> & Hte).
+  unfold new_label. step_rec Ht1. rewrite Hd1. cbn [swapped].
+  step_rec Ht2. rewrite Hd2. cbn [swapped].
+  (* the three optional records *)
+  assert (Hopt : exists wd1,
+    run f (Build_rstate nm un dn (Some (c, b)) (Some (ELabel (Build_glabel (d16 (swap2 (payload rl)) 0) (d16 (swap2 (payload rt)) 0) [] (0, 0)%Z 0 false real_one 0 []))) wd ky ps) l2 =
+    run f (Build_rstate nm un dn (Some (c, b)) (Some (ELabel (Build_glabel (d16 (swap2 (payload rl)) 0) (d16 (swap2 (payload rt)) 0) [] (0, 0)%Z
+            (match opr with Some r => Z.to_N (f16 r mod 16) | None => 0 end) false real_one 0 []))) wd1 ky ps) l5).
+  { destruct (opt1_cases _ _ _ _ _ _ H3) as [[-> ->]|(r3 & -> & -> & Ht3 & Hd3)];
+    destruct (opt1_cases _ _ _ _ _ _ H4) as [[-> ->]|(r4 & -> & -> & Ht4 & Hd4)];
+    destruct (opt1_cases _ _ _ _ _ _ H5) as [[-> ->]|(r5 & -> & -> & Ht5 & Hd5)];
+    try (step_rec Ht3; rewrite Hd3; cbn [swapped]);
+    try (step_rec Ht4);
+    try (step_rec Ht5);
+    eexists; reflexivity. }
+  destruct Hopt as [wd1 Hopt]. rewrite Hopt.
+  rewrite (run_take_strans_label _ _ _ _ _ _ _ _ _ _ _ _ _ _ _ _ _ _ _ H6).
+  step_rec Ht7. rewrite Hd7. cbn [swapped]. step_rec Hts.
+  match goal with |- context [Some (ELabel ?r)] =>
+    destruct (run_take_props f nm un dn (Some (c, b)) wd1 ps l8 (ELabel r) ky prs (re :: l10) H9) as [ky' Hp]
+  end.
+  rewrite Hp. cbn [with_props l_layer l_type l_text l_origin l_anchor l_refl l_mag l_rot].
+  step_rec Hte. cbn [s_cur]. do 3 eexists. reflexivity.
+Qed.
+
+(* an element, starting from its first record *)
+Lemma run_spec_element f nm un dn c b wd ky ps l e rest :
+  spec_element l = Some (e, rest) ->
+  exists wd' ky' ps',
+  run f (Build_rstate nm un dn (Some (c, b)) None wd ky ps) l =
+  run f (Build_rstate nm un dn (Some (commit f c e, b)) None wd' ky' ps') rest.
+Proof.
+  unfold spec_element. destruct l as [|r l]; [discriminate|].
+  destruct (plen r =? 0); [|discriminate].
+  destruct (rtype r) as [|p] eqn:Ht; [discriminate|].
+  do 6 (try (destruct p as [p|p|])); try discriminate; intros H;
+  step_rec Ht;
+  first [ apply run_spec_boundary with (box := true); exact H
+        | apply run_spec_boundary with (box := false); exact H
+        | apply run_spec_ref with (array := true); exact H
+        | apply run_spec_ref with (array := false); exact H
+        | apply run_spec_path; exact H
+        | apply run_spec_text; exact H ].
+Qed.
+
+(* ------------------------------------------------------------------ structures and the library *)
+Lemma run_spec_elements f nm un dn b : forall fuel l es rest c wd ky ps,
+  spec_elements fuel l = Some (es, rest) ->
+  exists wd' ky' ps',
+  run f (Build_rstate nm un dn (Some (c, b)) None wd ky ps) l =
+  run f (Build_rstate nm un dn (Some (fold_left (commit f) es c, b)) None wd' ky' ps') rest.
+Proof.
+  induction fuel as [|fu IH]; intros l es rest c wd ky ps; cbn [spec_elements]; [discriminate|].
+  destruct l as [|r l]; [discriminate|].
+  destruct (rtype r =? 7) eqn:E7.
+  - intros [= <- <-]. apply N.eqb_eq in E7. step_rec E7. do 3 eexists. reflexivity.
+  - destruct (spec_element (r :: l)) as [[e rest1]|] eqn:He; [|discriminate].
+    destruct (spec_elements fu rest1) as [[es' rest2]|] eqn:Hes; [|discriminate].
+    intros [= <- <-].
+    destruct (run_spec_element f nm un dn c b wd ky ps (r :: l) e rest1 He) as (wd1 & ky1 & ps1 & H1).
+    rewrite H1. cbn [fold_left]. apply IH. exact Hes.
+Qed.
+
+Lemma run_spec_structures nm un : forall fuel l cs rest dn cu wd ky ps,
+  spec_structures fuel l = Some (cs, rest) ->
+  run None (Build_rstate nm un dn cu None wd ky ps) l =
+  SRet {| g_name := nm; g_units := un; g_cells := flush dn cu ++ cs |}.
+Proof.
+  induction fuel as [|fu IH]; intros l cs rest dn cu wd ky ps; cbn [spec_structures]; [discriminate|].
+  destruct l as [|r l]; [discriminate|].
+  destruct (rtype r =? 4) eqn:E4.
+  - intros [= <- <-]. apply N.eqb_eq in E4. step_rec E4. unfold flush_cur. cbn [s_cur s_done]. fold (flush dn cu).
+    rewrite app_nil_r. reflexivity.
+  - destruct (is_rec 5 2 r && (plen r =? 24)) eqn:E5; [|discriminate].
+    destruct (take_str 6 l) as [[cn l1]|] eqn:Hn; [|discriminate].
+    destruct (spec_elements (length l1) (skip_strclass l1)) as [[es l2]|] eqn:Hes; [|discriminate].
+    destruct (spec_structures fu l2) as [[cs' l3]|] eqn:Hcs; [|discriminate].
+    intros [= <- <-].
+    apply andb_prop in E5. destruct E5 as [E5 _]. apply is_rec_true in E5. destruct E5 as [Ht5 _].
+    destruct (take_str_some _ _ _ _ Hn) as (rn & -> & Htn & ->).
+    step_rec Ht5. unfold flush_cur. cbn [s_cur s_done]. fold (flush dn cu).
+    step_rec Htn. unfold empty_cell. cbn [c_polys c_paths c_refs c_labels].
+    rewrite (run_skip_strclass None _ l1).
+    destruct (run_spec_elements None nm un (flush dn cu) true _ _ _ _
+                (Build_gcell (strip_nul (payload rn)) [] [] [] []) wd ky ps Hes) as (wd1 & ky1 & ps1 & H1).
+    rewrite H1. rewrite (IH _ _ _ _ _ _ _ _ Hcs). cbn [flush]. rewrite <- app_assoc. reflexivity.
+Qed.
+
+Theorem run_spec_records l L : spec_records l = Some L -> run None init_state l = SRet L.
+Proof.
+  unfold spec_records.
+  destruct (take1 0 2 2 l) as [[r0 l1]|] eqn:H0; [|discriminate].
+  destruct (take1 1 2 24 l1) as [[r1 l2]|] eqn:H1; [|discriminate].
+  destruct (take_str 2 l2) as [[nm l3]|] eqn:H2; [|discriminate].
+  destruct (take1 3 5 16 (skip_libopt l3)) as [[ru l4]|] eqn:H3; [|discriminate].
+  destruct (spec_structures (length l4) l4) as [[cs rest]|] eqn:H4; [|discriminate].
+  intros [= <-].
+  destruct (take1_some _ _ _ _ _ _ H0) as (-> & Ht0 & _).
+  destruct (take1_some _ _ _ _ _ _ H1) as (-> & Ht1 & _).
+  destruct (take_str_some _ _ _ _ H2) as (rn & -> & Htn & ->).
+  destruct (take1_some _ _ _ _ _ _ H3) as (Hl & Ht3 & Hd3).
+  unfold init_state. step_rec Ht0. step_rec Ht1. step_rec Htn.
+  rewrite (run_skip_libopt None _ l3). rewrite Hl. step_rec Ht3. rewrite Hd3. cbn [swapped].
+  rewrite (run_spec_structures _ _ _ _ _ _ _ _ _ _ _ H4). reflexivity.
+Qed.
+
+(* ------------------------------------------------------------------ framing *)
+Lemma loop_frame : forall fuel bs l, frame_all fuel bs = Some l ->
+  forall st fuel2, (fuel <= fuel2)%nat ->
+  forall lib, run None st l = SRet lib ->
+  exists r', reader_loop rstate (option glib) (step_for_loop None) fuel2 st bs = Ok (Some lib, r').
+Proof.
+  induction fuel as [|fu IH]; intros bs l; cbn [frame_all]; [discriminate|].
+  destruct bs as [|b0 bs0].
+  - intros [= <-] st fuel2 _ lib H. discriminate.
+  - set (bs := b0 :: bs0).
+    destruct (next_record bs) as [[r rest]| | | | |] eqn:En; try discriminate.
+    destruct (Nat.even (length (payload r))); [|discriminate].
+    destruct (rtype r =? 4) eqn:E4.
+    + intros [= <-] st fuel2 Hf lib Hrun. destruct fuel2 as [|f2]; [lia|].
+      cbn [reader_loop]. rewrite En. unfold step_for_loop. cbn [run] in Hrun.
+      destruct (step_gds None st r) as [st'|l'|]; try discriminate.
+      injection Hrun as <-. eexists. reflexivity.
+    + destruct (frame_all fu rest) as [l'|] eqn:Hfr; [|discriminate].
+      intros [= <-] st fuel2 Hf lib Hrun. destruct fuel2 as [|f2]; [lia|].
+      cbn [reader_loop]. rewrite En. unfold step_for_loop at 1. cbn [run] in Hrun.
+      destruct (step_gds None st r) as [st'|l''|] eqn:Es; try discriminate.
+      * apply (IH rest l' Hfr st' f2 ltac:(lia) lib Hrun).
+      * injection Hrun as <-. eexists. reflexivity.
+Qed.
+
+(* every stream the strict grammar accepts is loaded to the layout the grammar assigns to it *)
+Theorem reader_accepts_spec_lemma bs L : spec_decode bs = Some L -> read_gds_model None bs = Ok L.
+Proof.
+  unfold spec_decode. destruct (frame_all (S (length bs)) bs) as [l|] eqn:Hf; [|discriminate].
+  intros Hs. apply run_spec_records in Hs.
+  destruct (loop_frame _ _ _ Hf init_state (S (length bs)) (le_n _) L Hs) as [r' Hr].
+  unfold read_gds_model, reader. rewrite Hr. reflexivity.
+Qed.
+
+(* non-vacuity: the strict decoder accepts what the writer model emits for the example library *)
+Example spec_accepts_written_example :
+  spec_decode (write_gds_model [2020; 6; 17; 11; 22; 33]%Z ex_lib) = Some (canon_lib ex_lib).
+Proof. vm_compute. reflexivity. Qed.
